@@ -22,7 +22,7 @@ ASSUMPTIONS = [
     "an analysis argument called 'indicator' is passed through 'args' in the dict form (it cannot sit next to the dict's own 'indicator' key)",
     "a library call that does not return within 5 s is reported as diverged (watchdog)",
 ]
-PARTIAL = 'proved: OHLCV never changed by calculation; member without own timeframe = standalone twin under any program (readings, candles, columns) given disjoint names (TreeOK); members with their own timeframe vs a twin fed the raw stream, and the dict/settings forms: members_FULL, correspondence + search'
+PARTIAL = "proved: calculation never changes OHLCV/stamps; Hexital.calculate(name) = the member's own calculate on its manager; member_standalone (a member without own timeframe ends like its standalone twin under any program); and for members given as configuration dicts / as the dict obtained from an indicator's settings: build (settings c) = c for all 27 classes on the decidable domain Valid (same tree, name, manager configuration, Member record), the dict form is the keyword constructor, missing / unknown keys are rejected - the settings code path (Indicator.settings, Amorph.settings, _build_indicator, __post_init__) is modelled and tied (component 'settings'). Open (members_FULL): members with their own timeframe vs a twin fed the raw stream"
 
 
 def oracle(ctx):
